@@ -280,8 +280,9 @@ impl Prop for C16 {
                     raw::Units::Pico => 1_000_000,
                 };
                 if s < 10_000 {
-                    cx.inconclusive("importer chose units coarser than the generator's grid");
-                    return;
+                    // units coarser than the grid the values were drawn on: the coordinates below are judged against value x units-per-micron
+                    // all the same (a value that is not a whole number of such units should have been refused, and will not compare equal)
+                    cx.count("imports_with_units_coarser_than_a_tenth_of_a_nanometre");
                 }
                 let detail = |what: &str| json!({"what": what, "lef": format!("{:?}", b.lef).chars().take(2500).collect::<String>()});
                 if lib.cells.len() != b.want.len() {
@@ -370,7 +371,18 @@ impl Prop for C16 {
                 // one coordinate is not a whole number of raw units: must be reported as an error, not rounded
                 let mut b = build(&mut cx.rng);
                 cx.eval();
-                let bad = LefDecimal::new(cx.rng.range(1, 9) + 10 * cx.rng.range(-99_999, 99_999), if cx.rng.bool() { 5 } else { 6 });
+                // off the grid by a lot (a fifth or sixth decimal), or by next to nothing (the representation noise of a value that went
+                // through binary floating point: 0.28500000000000003, 2.99999999999999): either way it is not a whole number of units
+                let near_grid = cx.rng.chance(1, 3);
+                let bad = if near_grid {
+                    let d = 13 + cx.rng.below(6) as u32; // 13..18 decimals
+                    let v = cx.rng.range(1, 9000); // raw units
+                    let r = cx.rng.range(1, 9);
+                    let m = v * 10i64.pow(d - 4);
+                    LefDecimal::new(if cx.rng.bool() { m + r } else { m - r }, d)
+                } else {
+                    LefDecimal::new(cx.rng.range(1, 9) + 10 * cx.rng.range(-99_999, 99_999), if cx.rng.bool() { 5 } else { 6 })
+                };
                 let m = cx.rng.usize(b.lef.macros.len());
                 let where_ = match cx.rng.below(3) {
                     0 => {
@@ -398,10 +410,10 @@ impl Prop for C16 {
                         // only a violation if the importer's unit really cannot hold the value
                         let fine_enough = matches!(lib.units, raw::Units::Pico) && bad.scale() <= 6;
                         if !fine_enough {
-                            cx.violation(&format!("fractional|accepted|{}", where_), json!({"where": where_, "value": bad.to_string(), "units": format!("{:?}", lib.units)}));
+                            cx.violation(&format!("fractional|accepted{}|{}", if near_grid { "-near-grid-value" } else { "" }, where_), json!({"where": where_, "value": bad.to_string(), "units": format!("{:?}", lib.units)}));
                         }
                     }
-                    Ok(Err(_)) => cx.count("fractional_rejected"),
+                    Ok(Err(_)) => cx.count(if near_grid { "fractional_near_grid_rejected" } else { "fractional_rejected" }),
                 }
                 cx.sample(|| json!({"where": where_, "value": bad.to_string()}));
             }
